@@ -46,6 +46,8 @@ def instances(tier, seed):
     add("ext:bond:no-tables", Ns=3, No=2, kind='bond', S=1, topo=0, tables='neither', mode='default', cost=5)
     add("ext:bond:self-emptied-kind", Ns=3, No=2, kind='bond', S=0, topo=0, tables='both', mode='default', cost=3)
     add("ext:bond:other-has-no-table-no-terms", Ns=3, No=2, kind='bond', S=2, topo=None, tables='self', mode='default', cost=3)
+    add("ext:bond:no-pair-coeff-tables", Ns=3, No=2, kind='bond', S=1, topo=0, tables='both', mode='default', no_pair=True, cost=10)
+    add("ext:bond:self-has-pair-coeffs-other-not", Ns=3, No=2, kind='bond', S=1, topo=0, tables='both', mode='default', no_pair='other', cost=10)
     # extra columns
     for xi, (xs, xo) in enumerate([(['a', 'b'], ['b', 'c']), (['a', 'b'], ['b', 'a']), ([], ['c']), (['a'], [])]):
         add(f"ext:bond:extra{xi}", Ns=2, No=2, kind='bond', S=1, topo=0, tables='both', mode='default',
@@ -93,8 +95,8 @@ def body(ctx, p):
         rows_s[p['kind2']] = 2
         rows_o[p['kind2']] = 2
         terms_s[p['kind2']] = 1
-    a, sp = build_state(ctx, 's', Ns, terms=terms_s, coeff_rows=rows_s, atom_rows=2, extra=xs)
-    o, so = build_state(ctx, 'o', No, terms={}, coeff_rows=rows_o, atom_rows=2, extra=xo)
+    a, sp = build_state(ctx, 's', Ns, terms=terms_s, coeff_rows=rows_s, atom_rows=3 if p.get('no_pair') else 2, extra=xs, pair_coeffs=(p.get('no_pair') is not True))
+    o, so = build_state(ctx, 'o', No, terms={}, coeff_rows=rows_o, atom_rows=2, extra=xo, pair_coeffs=not p.get('no_pair'))
     # other's terms: concrete topology, symbolic type ids
     okinds = [kind] + ([p['kind2']] if p.get('kind2') else [])
     for k in okinds:
